@@ -3,7 +3,10 @@
 package scen
 
 import (
+	"fmt"
 	"strings"
+
+	"verif/lib/jsseeds"
 
 	"github.com/dop251/goja"
 )
@@ -12,6 +15,7 @@ type Scenario struct {
 	Name   string
 	Src    string
 	Shared string // kind of the shared values S and T ("" = none)
+	Long   bool   // a whole seed program (hundreds of instructions): explored with a smaller preemption bound
 }
 
 const longASCII = "The quick brown fox jumps over the lazy dog 0123456789"
@@ -30,27 +34,30 @@ var stringOps = []string{
 
 func Scenarios() []Scenario {
 	res := []Scenario{
-		{"regex-exec", `var r=/a(b)?c/g; var m=r.exec("xabcabc"); m.index+":"+m[1]+":"+r.lastIndex+":"+r.exec("xabcabc").index`, ""},
-		{"regex-backtrack", `var r=/(?<n>a+)\k<n>/y; r.lastIndex=1; var m=r.exec("xaaaa"); (m&&m.groups.n)+":"+/x(?=y)/.test("xy")+":"+/é+/u.exec("aéé").index`, ""},
-		{"regex-replace-split", `"aXbXc".replace(/x/gi, function(m,o){return o})+"abc".split(/b/).length+"a-b".match(/(\w)-(\w)/).length`, ""},
-		{"tagged-template", "function tag(s){ return s } function site(){ return tag`x${1}y` } var a=site(), b=site(); [a===b, a.raw[0], Object.isFrozen(a)].join()", ""},
-		{"class-private", `class A{ #p=1; static #s=2; static s=A.#s; #m(){ return 3 } m(){return this.#p+this.#m()} static has(o){return #p in o} } [new A().m(), A.s, A.has(new A()), A.has({})].join()`, ""},
-		{"dynamic-scope", `function f(x){ var y=2; eval("var z=x+y"); with({w:4}){ return z+w } } f(1)+(function(){ return typeof arguments })()`, ""},
-		{"const-fold", `var a = 1+2*3, b = "a"+"b"+1, c = -(-0), d = 2**53+1, e = "x".length, g = void 0; [a,b,Object.is(c,0),d,e,g].join()`, ""},
-		{"closures-loop", `var fs=[]; for (let i=0;i<3;i++){ fs.push(()=>i) } fs.map(f=>f()).join()`, ""},
-		{"error-stack", `function g(){ return new Error("e").stack } var st=g(); st.split("\n").length + ":" + (st.indexOf("c16.js:1:") >= 0) + ":" + (function(){ try { null.x } catch(e){ return e.stack.split("\n").length } })()`, ""},
-		{"literals", "var o={a:1,'b':[1,2,{c:`t${1}`}],get g(){return 2},[`k${1}`]:3}; JSON.stringify(o)+o.g", ""},
-		{"generator-async", `function* g(){ var x=yield 1; yield x*2 } var it=g(); it.next(); var r=it.next(4).value; var out=[]; (async function(){ out.push(await 1) })(); r+":"+out.length`, ""},
-		{"destructuring", `var {a=1,b:[c,d]=[]}={b:[2,3]}; var [x,,y=9,...z]=[1,2]; function f({p,q=5},[r]=[7]){ return p+q+r } [a,c,d,x,y,z.length,f({p:1})].join()`, ""},
-		{"unicode-const", `var s="héllo wörld, this is a long cönstant string \u{1F600}"; s.toUpperCase()+s.length+s.indexOf("w")+s.codePointAt(44)`, ""},
-		{"bigint-const", `10n**20n + 1n + "" + (2n**64n).toString(16)`, ""},
-		{"switch-labels", `var r=""; L: for (var i=0;i<3;i++){ switch(i){ case 0: r+="a"; continue L; case 1: r+="b"; break; default: r+="c"; break L } r+="-" } r`, ""},
-		{"symbol-shared", `var o={}; o[S]=1; [typeof S, S.toString(), S.description, Object.getOwnPropertySymbols(o)[0]===S, o[T]].join()`, "symbol"},
-		{"number-shared", `[S+1, S===T, Object.is(S,T), new Map([[S,1]]).get(T), String(S)].join()`, "number"},
+		{"regex-exec", `var r=/a(b)?c/g; var m=r.exec("xabcabc"); m.index+":"+m[1]+":"+r.lastIndex+":"+r.exec("xabcabc").index`, "", false},
+		{"regex-backtrack", `var r=/(?<n>a+)\k<n>/y; r.lastIndex=1; var m=r.exec("xaaaa"); (m&&m.groups.n)+":"+/x(?=y)/.test("xy")+":"+/é+/u.exec("aéé").index`, "", false},
+		{"regex-replace-split", `"aXbXc".replace(/x/gi, function(m,o){return o})+"abc".split(/b/).length+"a-b".match(/(\w)-(\w)/).length`, "", false},
+		{"tagged-template", "function tag(s){ return s } function site(){ return tag`x${1}y` } var a=site(), b=site(); [a===b, a.raw[0], Object.isFrozen(a)].join()", "", false},
+		{"class-private", `class A{ #p=1; static #s=2; static s=A.#s; #m(){ return 3 } m(){return this.#p+this.#m()} static has(o){return #p in o} } [new A().m(), A.s, A.has(new A()), A.has({})].join()`, "", false},
+		{"dynamic-scope", `function f(x){ var y=2; eval("var z=x+y"); with({w:4}){ return z+w } } f(1)+(function(){ return typeof arguments })()`, "", false},
+		{"const-fold", `var a = 1+2*3, b = "a"+"b"+1, c = -(-0), d = 2**53+1, e = "x".length, g = void 0; [a,b,Object.is(c,0),d,e,g].join()`, "", false},
+		{"closures-loop", `var fs=[]; for (let i=0;i<3;i++){ fs.push(()=>i) } fs.map(f=>f()).join()`, "", false},
+		{"error-stack", `function g(){ return new Error("e").stack } var st=g(); st.split("\n").length + ":" + (st.indexOf("c16.js:1:") >= 0) + ":" + (function(){ try { null.x } catch(e){ return e.stack.split("\n").length } })()`, "", false},
+		{"literals", "var o={a:1,'b':[1,2,{c:`t${1}`}],get g(){return 2},[`k${1}`]:3}; JSON.stringify(o)+o.g", "", false},
+		{"generator-async", `function* g(){ var x=yield 1; yield x*2 } var it=g(); it.next(); var r=it.next(4).value; var out=[]; (async function(){ out.push(await 1) })(); r+":"+out.length`, "", false},
+		{"destructuring", `var {a=1,b:[c,d]=[]}={b:[2,3]}; var [x,,y=9,...z]=[1,2]; function f({p,q=5},[r]=[7]){ return p+q+r } [a,c,d,x,y,z.length,f({p:1})].join()`, "", false},
+		{"unicode-const", `var s="héllo wörld, this is a long cönstant string \u{1F600}"; s.toUpperCase()+s.length+s.indexOf("w")+s.codePointAt(44)`, "", false},
+		{"bigint-const", `10n**20n + 1n + "" + (2n**64n).toString(16)`, "", false},
+		{"switch-labels", `var r=""; L: for (var i=0;i<3;i++){ switch(i){ case 0: r+="a"; continue L; case 1: r+="b"; break; default: r+="c"; break L } r+="-" } r`, "", false},
+		{"symbol-shared", `var o={}; o[S]=1; [typeof S, S.toString(), S.description, Object.getOwnPropertySymbols(o)[0]===S, o[T]].join()`, "symbol", false},
+		{"number-shared", `[S+1, S===T, Object.is(S,T), new Map([[S,1]]).get(T), String(S)].join()`, "number", false},
+	}
+	for i, src := range jsseeds.Programs {
+		res = append(res, Scenario{Name: fmt.Sprintf("seed/%02d", i), Src: src, Long: true})
 	}
 	for _, kind := range []string{"imported-ascii", "imported-unicode", "concat", "utf16"} {
 		for _, op := range stringOps {
-			res = append(res, Scenario{"str/" + kind + "/" + op, op, kind})
+			res = append(res, Scenario{"str/" + kind + "/" + op, op, kind, false})
 		}
 	}
 	return res
